@@ -19,9 +19,9 @@ NAMES = ['A', 'B', 'C', 'D', 'D0', 'Tz', 'D3', 'G', 'Pr', 'P', 'Pk', 'Pw', 'Mv',
          'R1', 'R2', 'R3', 'Hw', 'Pl', 'R1i', 'Hwi', 'Pli', 'R1v', 'Hwv', 'Plv', 'AI', 'DI', 'D0I', 'D3I', 'TzI', 'GT',
          'CT', 'PrT', 'PT', 'PkT', 'MvT', 'RsT', 'RvT', 'BdT', 'R1T', 'R3T', 'R1iT', 'PlT', 'I2v', 'Iqu', 'Im',
          'H2', 'Hh', 'Hq', 'Hm', 'AB', 'Mc', 'McT', 'Mn',
-         'Dl', 'DlI', 'Prl', 'PrlT', 'BDl', 'BRl', 'BCl', 'Il', 'Hl', 'Mp', 'Mq', 'Ma', 'Mb', 'Ob', 'ObT', 'Pp', 'PpT', 'Pn', 'BRt', 'BCt']
+         'Dl', 'DlI', 'Prl', 'PrlT', 'BDl', 'BRl', 'BCl', 'Il', 'Hl', 'Mp', 'Mq', 'Ma', 'Mb', 'Ob', 'ObT', 'Pp', 'PpT', 'Pn', 'BRt', 'BCt', 'Tn']
 # products of two in the quick tier: one or two representatives per class and per space
-PAIRS_QUICK = ['A', 'C', 'D', 'D0', 'Tz', 'D3', 'G', 'GT', 'Pr', 'PrT', 'P', 'PT', 'Pk', 'PkT', 'Mv', 'MvT', 'Mvi', 'Rs', 'RsT', 'Rv', 'Rn', 'Bd',
+PAIRS_QUICK = ['A', 'C', 'CT', 'D', 'D0', 'Tz', 'D3', 'G', 'GT', 'Pr', 'PrT', 'P', 'PT', 'Pk', 'PkT', 'Mv', 'MvT', 'Mvi', 'Rs', 'RsT', 'Rv', 'Rn', 'Bd',
                'R1', 'R3', 'R1T', 'Hw', 'Pl', 'R1i', 'Hwi', 'Pli', 'AI', 'DI', 'I2v', 'Iqu', 'H2', 'Hq', 'Mc', 'McT', 'Ma', 'Mb', 'Mp', 'Mq',
                'Dl', 'Prl', 'PrlT', 'DlI', 'BDl', 'BRl', 'BCl', 'Hl', 'Ob', 'Pp', 'Pn', 'BRt', 'BCt']
 SOLO = ['Dq', 'DqI', 'Dh', 'Dw', 'DwI']       # extreme parameter values (tiny / huge diagonal entries): used alone only
@@ -211,6 +211,13 @@ def execute(case: dict) -> dict:
         return out
     try:
         op = b.build(term)
+        if (case['names'][0] == '5' and case['names'][3] == 'plain' and term['k'] == 'comp' and len(term['ch']) == 2
+                and term['ch'][0]['k'] == 'hom' and not mixed and (int(case['id'], 16) % 2 == 0 or 'S' in groups)):
+            # k * x written by the user with a Python float (a weakly typed scalar): half of the scaled subjects are
+            # built through the dunder, so that reduce() has weak scalars to merge and move
+            hp = term['ch'][0]['p']
+            op = (hp[0] / hp[1]) * b.build(term['ch'][1])
+            out['weak_scalar'] = True
     except Exception as exc:
         out['build_exc'] = f'{type(exc).__name__}: {str(exc)[:300]}'
         return out
@@ -560,7 +567,7 @@ def run(prop: str, tier: str, seed: int) -> int:
         # products, sums and differences of two operands: all of them (a shortcut keyed on a property shared by both
         # operands - both symmetric, both diagonal, same class - shows only on particular pairs of classes)
         have = {c['id'] for c in picked}
-        two = [c for c in sel if c['names'][0] in ('2', '3', '4') and c['id'] not in have]
+        two = [c for c in sel if c['names'][0] in ('2', '3', '4', '5') and c['id'] not in have]      # and every scaled subject
         atoms = [c for c in sel if c['names'][0] == '1']          # every atom alone, every mode
         # every product of two operators of rule-related kinds (the pairs a binary rule may look at)
         ruley = {'mvax', 'reshape', 'ravel', 'RT', 'T', 'index', 'pack', 'rot', 'rotT', 'brow', 'bdiag', 'bcol', 'inv', 'dinv'}
